@@ -17,3 +17,9 @@ func VerifDecoderKeys() (reader []string, sliceReader []string) {
 	sort.Strings(sliceReader)
 	return reader, sliceReader
 }
+
+// VerifC03SencRaw returns the unexported decode-time state of a senc box: the raw payload after the first
+// 8 bytes, the box size recorded at decode time and the read-but-not-parsed flag.
+func VerifC03SencRaw(s *SencBox) (rawData []byte, readBoxSize uint64, readButNotParsed bool) {
+	return s.rawData, s.readBoxSize, s.readButNotParsed
+}
